@@ -19,10 +19,13 @@
     Outside the model (oracles, arguments of the model functions):
     - [accepts d]: d passes parser.ParseMessage and parser.ValidateMessage
       (net/mail);
+    - [over r d]: the overQuota map of handleDATA (storage.CheckRecipientQuota
+      says ErrQuotaExceeded for recipient r and a message of the size of d; it
+      is computed for every recipient before any delivery of the transaction,
+      and is constantly false when Delivery.QuotaEnabled is off);
     - [delivers r d]: storage.DeliverToMultipleRecipients reports success for
       recipient r (SQLite stores).
-    Delivery.AllowedDomains is empty and RejectUnknownUser/QuotaEnabled are
-    off (the defaults; the address policy is property C17).
+    Delivery.AllowedDomains is empty and RejectUnknownUser is off (the defaults; the address policy is property C17).
     strings.TrimSpace / ToUpper / Fields are the ASCII restrictions of
     Base/GoStr.v.  No proofs in this file. *)
 From Coq Require Import String Ascii List Bool ZArith.
@@ -212,6 +215,7 @@ Definition handle (c : cfg) (s : st) (cmd args : str) : st * list ev * next :=
 Section Oracles.
   Variable accepts : str -> bool.
   Variable delivers : str -> str -> bool.
+  Variable over : str -> str -> bool.
 
   (** rejectMessage: one reply per recipient, then the reset *)
   Definition reject (s : st) (code : N) : st * list ev :=
@@ -222,7 +226,11 @@ Section Oracles.
     match data_end d with
     | DOk data =>
         if accepts data
-        then (reset s, map (fun r => Deliver r data (delivers r data)) (rcpts s))
+        then (* the reply loop "for _, recipient := range s.recipients": an over-quota
+                recipient is answered 552 5.2.2 in its own position, the others
+                with the result of their delivery *)
+             (reset s, map (fun r => if over r data then Refuse r 552
+                                     else Deliver r data (delivers r data)) (rcpts s))
         else reject s 554
     | _ => reject s 552   (* errors.Is(err, parser.ErrMessageTooLarge) *)
     end.
